@@ -82,6 +82,24 @@ Theorem C22_once_per_block :
 Proof. exact mf_block_valid_once. Qed.
 Print Assumptions C22_once_per_block.
 
+(* block level (validate the block's transactions, then execute them): for any block accepted by
+   ValidateTransactions - whose invariant is "at most one built-in transaction of each name,
+   over ALL validation batches" - executing the block either leaves the stake pools alone or is
+   exactly ONE successful payFees of the state before the block; with
+   C22_pay_fees_exact_and_bounded that payment hands out exactly fees + block reward *)
+Theorem C22_valid_block_pays_once :
+  forall chargef sharef splitf gn bk live md sd builtin,
+  builtin mf_fn_pay_fees = true ->
+  forall txns seen st,
+  (forall fn, In (TxOther fn) txns -> fn <> mf_fn_pay_fees) ->
+  mf_block_valid builtin seen (map mf_txn_name txns) = true ->
+  (In mf_fn_pay_fees seen -> mf_run_block chargef sharef splitf gn bk live md sd st txns = st) /\
+  (mf_run_block chargef sharef splitf gn bk live md sd st txns = st \/
+   exists c r, In (TxPay c r) txns /\
+     mf_pay chargef sharef splitf gn bk live md sd st c r = SpOk (mf_run_block chargef sharef splitf gn bk live md sd st txns)).
+Proof. exact mf_valid_block_pays_once. Qed.
+Print Assumptions C22_valid_block_pays_once.
+
 (* Non-vacuity: block reward 1000, fees 40, share ratio 0.5: miner side 500 + 20, the single
    sharder 20 + 500; everything is credited *)
 Example C22_example :
